@@ -21,12 +21,19 @@ Theorem C01_codec_roundtrip :
     float_text_ok fmt_float -> float_roundtrip fmt_float parse_float -> time_parse_extends parse_time ->
     inner_ok any_inner ->
     forall root m txt,
-      rep_root env root m -> encode fmt_float any_inner env root m = Ok txt ->
+      rep_root any_inner env root m -> encode fmt_float any_inner env root m = Ok txt ->
       exists J, strict_parse txt = Some J /\
         (N.of_nat (jnest J) <= max_nesting ->
          exists m', decode_tree parse_float parse_time env root J = Ok m' /\ equiv_root any_inner env root m m').
 Proof. exact codec_roundtrip. Qed.
 Print Assumptions C01_codec_roundtrip.
+
+(* the premises about strconv and time.Parse are jointly satisfiable: printing the bit pattern in
+   decimal (a JSON number) and reading it back, and the fast path itself as the time parser *)
+Theorem C01_premises_satisfiable :
+  float_text_ok inst_fmt /\ float_roundtrip inst_fmt inst_parse_float /\ time_parse_extends parse_rfc3339.
+Proof. exact premises_satisfiable. Qed.
+Print Assumptions C01_premises_satisfiable.
 
 (* the static conditions on a property list are decidable, and the decider is sound *)
 Theorem C01_props_ok_decided : forall env ps, props_ok_b env ps = true -> props_ok env ps.
@@ -41,7 +48,7 @@ Definition C01_full_statement : Prop :=
     oneofs_flat env -> oneof_names_ok env ->
     float_text_ok fmt_float -> float_roundtrip fmt_float parse_float -> time_parse_extends parse_time ->
     inner_ok any_inner ->
-    forall root m, rep_root env root m ->
+    forall root m, rep_root any_inner env root m ->
       exists txt J m', encode fmt_float any_inner env root m = Ok txt /\ strict_parse txt = Some J /\
                        decode_tree parse_float parse_time env root J = Ok m' /\ equiv_root any_inner env root m m'.
 
@@ -140,7 +147,7 @@ Definition rt_tree : jvalue := Eval vm_compute in
   match strict_parse rt_txt with Some j => j | None => JNull end.
 
 Example C01_roundtrip_example :
-  oneofs_flat rt_env /\ oneof_names_ok rt_env /\ rep_root rt_env [82] rt_msg /\
+  oneofs_flat rt_env /\ oneof_names_ok rt_env /\ rep_root rt_inner rt_env [82] rt_msg /\
   encode rt_fmt rt_inner rt_env [82] rt_msg = Ok rt_txt /\ strict_parse rt_txt = Some rt_tree /\
   decode_tree rt_pf rt_pt rt_env [82] rt_tree = Ok rt_msg.
 Proof.
@@ -157,7 +164,10 @@ Proof.
       * split; [constructor; cbn; lia|reflexivity].
       * split; [constructor; vm_compute; reflexivity|reflexivity].
       * split; [|reflexivity]. apply RV_oneof with (ps := [mkProp [97] [1] false true [2] (FScalar KBool);
-                                                          mkProp [98] [2] false true [1] (FScalar KInt32)]); [reflexivity|].
+                                                          mkProp [98] [2] false true [1] (FScalar KInt32)]); [reflexivity| |].
+        2:{ intros q1 q2 H1 H2 P1 P2. vm_compute in H1, H2.
+            destruct H1 as [<-|[<-|[]]]; destruct H2 as [<-|[<-|[]]]; try reflexivity;
+              exfalso; vm_compute in P1, P2; congruence. }
         constructor.
         -- apply props_ok_b_sound. vm_compute. reflexivity.
         -- intros l v Hl Hv. vm_compute in Hl. destruct Hl as [<-|[<-|[]]]; vm_compute in Hv; [injection Hv as <-|discriminate].
